@@ -386,20 +386,20 @@ theorem doRules_layout (lv sl : Nat) : ∀ rs : List Rule, RulesOk p q lv sl rs 
 end
 
 /-- the guard for a sheet: `RulesOk` of the rules that survive the namespace filter, at `_level` 0 -/
-def SheetOk (p q : Prefs) (sl : Nat) (s : Sheet) : Prop :=
-  RulesOk p q 0 sl (s.rules.filter fun r => !nsDropped p s.usedUris r)
+def SheetOk (p q : Prefs) (s : Sheet) : Prop :=
+  RulesOk p q 0 0 (s.rules.filter fun r => !nsDropped p s.usedUris r)
 
-theorem doSheet_layout (sl : Nat) (hl : p.lineNumbers = false) (hl' : q.lineNumbers = false) (s : Sheet)
-    (ok : SheetOk p q sl s) : (doSheet p sl s).map stripWs = (doSheet q sl s).map stripWs := by
+theorem doSheet_layout (sl sl' : Nat) (hl : p.lineNumbers = false) (hl' : q.lineNumbers = false) (s : Sheet)
+    (ok : SheetOk p q s) : (doSheet p sl s).map stripWs = (doSheet q sl' s).map stripWs := by
   have hns : (fun r => !nsDropped p s.usedUris r) = (fun r => !nsDropped q s.usedUris r) := by
     funext r
     cases r <;> simp [nsDropped, h.keepUsedNamespaceRulesOnly]
   unfold doSheet
-  have ih := doRules_layout hp hq h 0 sl _ ok
+  have ih := doRules_layout hp hq h 0 0 _ ok
   rw [← hns]
   revert ih
-  generalize doRules p 0 sl (s.rules.filter fun r => !nsDropped p s.usedUris r) = A
-  generalize doRules q 0 sl (s.rules.filter fun r => !nsDropped p s.usedUris r) = B
+  generalize doRules p 0 0 (s.rules.filter fun r => !nsDropped p s.usedUris r) = A
+  generalize doRules q 0 0 (s.rules.filter fun r => !nsDropped p s.usedUris r) = B
   intro ih
   cases A <;> cases B <;> simp only [ExRel] at ih
   · simp [Except.map, ih]
